@@ -52,7 +52,8 @@ Inductive cin :=
 | CDofs (gs : list nat) (cn : list (list (list nat))) (d : list nat)
 | CSplitC (gs : list nat) (cn : list (list (list nat))) (ls : list (list nat)) (n : nat)
 | CSplitV (gs : list nat) (cn : list (list (list nat))) (d : list nat) (dim n : nat)
-| CDeduce (ref : list nat) (ls : list (list nat)) (n : nat).
+| CDeduce (ref : list nat) (ls : list (list nat)) (n : nat)
+| CCBasis (bs : list (basis Z VZ)).
 Inductive cout :=
 | OCoo (c : option (list (list nat) * list Z * list nat))
 | ODense (a : option (list (list Z)))
@@ -86,6 +87,13 @@ Definition run (c : cin) : cout :=
   | CSplitC gs cn ls n => ONats (gen_composite_split (mktopo gs cn) ls n)
   | CSplitV gs cn d dim n => ONats (gen_vector_split (mktopo gs cn) (fun K => nth K d 0) dim n)
   | CDeduce ref ls n => OPairs (map (gen_deduce_bfun ref ls) (seq 0 n))
+  | CCBasis bs => match bs with
+                  | [] => ONatss []
+                  | b0 :: rest => match gen_composite_basis Z VZ (list VZ) (fun n x => repeat (0%Z, 0%Z) n ++ [x]) b0 rest false with
+                                  | Some C => ONatss ([bN C; bNbfun C; bnelems C] :: bedofs C)
+                                  | None => ONatss [[0]]       (* rejected *)
+                                  end
+                  end
   end.
 Definition natpair_eqb (a b : nat * nat) := Nat.eqb (fst a) (fst b) && Nat.eqb (snd a) (snd b).
 Definition cout_eqb (a b : cout) : bool :=
@@ -289,20 +297,19 @@ def correspond(ctx, gen_ok):
             if A is not None:
                 cases.append((f'(CSum {kt} {wterm} {clist([S.coq_basis(b.tables) for b in us])} {clist([S.coq_basis(b.tables) for b in vs])})',
                               f'(ODense (Some {_zss(A.toarray())}))', ('sum', len(us) * len(vs) >= 2, info)))
-        # dot (square)
+        # dot: rectangular data (NV x NU), x has one entry per column (trial DOF), the result one per row
         if c % 3 == 0:
-            vbs = stub(NU, Nv, nt, nq, dx)
-            cs = _run(ctx, 'stub:elemental', 'Form.elemental on stub bases', info, lambda: form.elemental(ub, vbs, c=wc))
             x = [rng.randint(-3, 3) for _ in range(NU)]
-            D = sorted(rng.sample(range(NU), rng.randint(0, 2)))
-            z = _run(ctx, 'stub:dot', 'COOData.dot', info, lambda: cs.dot(np.array(x, dtype=float), D=np.array(D, dtype=np.int64) if D else None))
+            D = sorted(rng.sample(range(min(NU, NV)), rng.randint(0, 2)))
+            z = _run(ctx, 'stub:dot', 'COOData.dot on rectangular data', dict(info, x=x, D=D),
+                     lambda: coo.dot(np.array(x, dtype=float), D=np.array(D, dtype=np.int64) if D else None))
             if z is not None:
-                cases.append((f'(CDot {kt} {wterm} {ut} {S.coq_basis(vbs.tables)} {clist([cz(v) for v in x])} {cnats(D)})',
-                              f'(OData (Some {clist([cz(v) for v in S.exact_ints(z)])}))', ('dot', True, info)))
-                ref = cs.tocsr() @ np.array(x, dtype=float)
+                cases.append((f'(CDot {kt} {wterm} {ut} {vt} {clist([cz(v) for v in x])} {cnats(D)})',
+                              f'(OData (Some {clist([cz(v) for v in S.exact_ints(z)])}))', ('dot', NU != NV, info)))
+                ref = coo.tocsr() @ np.array(x, dtype=float)
                 ref[D] = np.array(x, dtype=float)[D]
-                if not np.array_equal(ref, z):
-                    ctx.fail('stub:dot', 'COOData.dot differs from the product with the assembled matrix',
+                if np.shape(z) != ref.shape or not np.array_equal(ref, z):
+                    ctx.fail('stub:dot', 'COOData.dot differs from the product with the assembled (rectangular) matrix',
                              dict(info, x=x, D=D, got=np.asarray(z).tolist(), expected=ref.tolist()))
     # ElementVector decoding observed on real elements
     tri, tet, quad = skfem.MeshTri(), skfem.MeshTet(), skfem.MeshQuad()
@@ -337,6 +344,29 @@ def correspond(ctx, gen_ok):
         if list(M.blocks) != want:
             ctx.fail(BMAT_KEY if n >= 4 else 'bmat-blocks', 'skfem.utils.bmat(...).blocks are not the prefix sums of the block-column widths',
                      dict(info, got=[int(x) for x in M.blocks], expected=want))
+    # CompositeBasis of stub bases: N, Nbfun, nelems and the stacked element_dofs; rejected combinations
+    for c in range(ctx.n(10, 40)):
+        M = rng.randint(1, 3)
+        nt, nq = rng.randint(1, 3), rng.randint(1, 2)
+        dx = S.random_dx(rng, nt, nq)
+        sts = [stub(rng.randint(1, 4), rng.randint(1, 3), nt, nq, dx) for _ in range(M)]
+        bad = c % 4 == 3 and M >= 2
+        if bad:
+            sts[-1] = stub(3, 2, nt + 1, nq, S.random_dx(rng, nt + 1, nq))
+        info = {'bases': [{x: b.tables[x] for x in ('N', 'edofs', 'nt_full')} for b in sts], 'case': c}
+        from skfem.assembly.basis.composite_basis import CompositeBasis
+        try:
+            cb = CompositeBasis(*sts)
+            out = [[int(cb.N), int(cb.Nbfun), int(cb.nelems)]] + cb.element_dofs.tolist()
+        except ValueError:
+            out = [[0]]
+        except Exception as e:  # noqa
+            ctx.fail('stub:compositebasis', f'CompositeBasis on stub bases: unexpected {type(e).__name__}: {e}', info)
+            continue
+        if bad and out != [[0]]:
+            ctx.fail('compositebasis:accepts-different-element-counts', 'CompositeBasis accepted bases with different numbers of elements', info)
+        cases.append((f'(CCBasis {clist([S.coq_basis(b.tables) for b in sts])})', f'(ONatss {clist([cnats(r) for r in out])})',
+                      ('cbasis', M >= 2, info)))
     correspond_tables(ctx, cases)
     if gen_ok:
         ctx.corr('blocks', IMPORTS, 'run', 'cout_eqb', cases, per_file=(34 if ctx.quick() else 25), defs=DEFS, nontrivial=lambda r: r[1])
